@@ -1,6 +1,6 @@
 (* StoreProofs.v — lemmas about StoreModel: dict laws, the forward simulation of both back-end
    models by the map specification, its lift to call sequences, and the corollaries used by PropC09.v. *)
-From Coq Require Import NArith List Bool Lia.
+From Coq Require Import NArith List Bool Lia Permutation.
 From CS Require Import Sx Str StoreModel.
 Import ListNotations.
 
@@ -470,8 +470,6 @@ Proof.
     split; [exact WF|]. exists (abs_sq T). split; [constructor | apply sp_equiv_refl].
 Qed.
 
-Definition view_sq (_ : op) (r : res) : res := unrow r.
-
 Theorem sq_refines ops T : wf_sq T ->
   exists s', sp_trace (abs_sq T) (history view_sq ops (fst (run_ops sq_step T ops))) s' /\
              sp_equiv s' (abs_sq (snd (run_ops sq_step T ops))) /\ wf_sq (snd (run_ops sq_step T ops)).
@@ -676,4 +674,350 @@ Proof.
   - exact HI.
   - exact HD.
   - apply sp_equiv_refl.
+Qed.
+
+(* ------------------------------------------------------------------ corollaries: SqliteStorage model *)
+Lemma run_ops_fst_cons {C} (step : C -> op -> res * C) c o ops :
+  fst (run_ops step c (o :: ops)) = fst (step c o) :: fst (run_ops step (snd (step c o)) ops).
+Proof. simpl. destruct (step c o) as [x c1]. simpl. destruct (run_ops step c1 ops). reflexivity. Qed.
+
+Lemma run_ops_snd_cons {C} (step : C -> op -> res * C) c o ops :
+  snd (run_ops step c (o :: ops)) = snd (run_ops step (snd (step c o)) ops).
+Proof. simpl. destruct (step c o) as [x c1]. simpl. destruct (run_ops step c1 ops). reflexivity. Qed.
+
+Lemma in_abs_sq T t i b : In ((t, i), b) (abs_sq T) <-> In (i, t, b) T.
+Proof.
+  unfold abs_sq. rewrite in_map_iff. split.
+  - intros [[[i' t'] b'] [E H]]. unfold row_tag, row_id, row_blob in E. simpl in E. inversion E; subst. exact H.
+  - intros H. exists (i, t, b). split; [reflexivity | exact H].
+Qed.
+
+Lemma is_dict_abs_sq T : wf_sq T -> is_dict (abs_sq T).
+Proof.
+  unfold wf_sq, is_dict, abs_sq. rewrite map_map. simpl.
+  induction T as [|r T IH]; simpl; intros ND; [constructor|].
+  inversion ND as [|? ? Hni ND']; subst. constructor; [|auto].
+  intros H. apply in_map_iff in H as [r' [E H]]. inversion E as [[E1 E2]]. apply Hni. rewrite <- E2.
+  apply in_map. exact H.
+Qed.
+
+Lemma live_iff T t i b : wf_sq T -> (sp_get (abs_sq T) (t, i) = Some b <-> In (i, t, b) T).
+Proof.
+  intros WF. unfold sp_get. rewrite (dict_get_in key_eqb key_eqb_eq) by (apply is_dict_abs_sq; exact WF).
+  apply in_abs_sq.
+Qed.
+
+Theorem sq_create_fresh T t b : wf_sq T ->
+  exists i, sq_step T (Create t b) = (RId i, T ++ [(i, t, b)]) /\ forall t' b', ~ In (i, t', b') T.
+Proof.
+  intros WF. exists (sq_next T). split; [reflexivity|].
+  intros t' b' H. apply (sq_next_fresh T). apply (in_map row_id) in H. exact H.
+Qed.
+
+Lemma sp_ok_untouched s o r s' k b :
+  sp_ok s o r s' -> touches k o = false -> sp_get s k = Some b -> sp_get s' k = Some b.
+Proof.
+  intros H. inversion H; subst; simpl; intros Ht Hg; try exact Hg.
+  - rewrite sp_get_set. destruct (key_eqb (t, i) k) eqn:E; [|exact Hg].
+    apply key_eqb_eq in E. subst k. congruence.
+  - rewrite sp_get_set, Ht. exact Hg.
+  - rewrite sp_get_del, Ht. exact Hg.
+Qed.
+
+Lemma sq_untouched_step T o k b : wf_sq T -> touches k o = false ->
+  sp_get (abs_sq T) k = Some b -> sp_get (abs_sq (snd (sq_step T o))) k = Some b.
+Proof.
+  intros WF Ht Hg. destruct (sq_step_refines T o WF) as [_ [s' [Hok He]]].
+  rewrite <- He. eapply sp_ok_untouched; eassumption.
+Qed.
+
+Lemma sq_untouched_run k b ops : forall T, wf_sq T -> Forall (fun o => touches k o = false) ops ->
+  sp_get (abs_sq T) k = Some b -> sp_get (abs_sq (snd (run_ops sq_step T ops))) k = Some b.
+Proof.
+  induction ops as [|o ops IH]; intros T WF HF Hg; [exact Hg|].
+  inversion HF as [|? ? Ho Hr]; subst. rewrite run_ops_snd_cons. apply IH.
+  - apply (sq_step_refines T o WF).
+  - exact Hr.
+  - apply sq_untouched_step; assumption.
+Qed.
+
+Theorem sq_read_last_write T w t b i ops : wf_sq T ->
+  (w = Create t b /\ fst (sq_step T w) = RId i) \/ (w = Update t b i /\ fst (sq_step T w) = RCount 1) ->
+  Forall (fun o => touches (t, i) o = false) ops ->
+  fst (sq_step (snd (run_ops sq_step (snd (sq_step T w)) ops)) (Read t i)) = RRow [b].
+Proof.
+  intros WF Hw HF.
+  destruct (sq_step_refines T w WF) as [WF1 [s' [Hok He]]].
+  assert (H1 : sp_get (abs_sq (snd (sq_step T w))) (t, i) = Some b).
+  { rewrite <- He. destruct Hw as [[-> Hr]|[-> Hr]]; rewrite Hr in Hok; simpl in Hok; inversion Hok; subst;
+      rewrite sp_get_set, key_eqb_rfl; reflexivity. }
+  pose proof (sq_untouched_run _ _ ops _ WF1 HF H1) as H2.
+  rewrite sq_get_abs in H2. cbn [sq_step fst].
+  destruct (filter (where_id_tag i t) (snd (run_ops sq_step (snd (sq_step T w)) ops))) as [|r rest];
+    [discriminate | inversion H2; reflexivity].
+Qed.
+
+Lemma no_row_filter T t i : (forall b0, ~ In (i, t, b0) T) -> filter (where_id_tag i t) T = [].
+Proof.
+  induction T as [|[[i0 t0] b0] T IH]; simpl; intros H; [reflexivity|].
+  destruct (where_id_tag i t (i0, t0, b0)) eqn:E.
+  - apply where_id_tag_true in E as [E1 E2]. unfold row_id, row_tag in *. simpl in *. subst.
+    exfalso. apply (H b0). left. reflexivity.
+  - apply IH. intros b1 H1. apply (H b1). right. exact H1.
+Qed.
+
+Lemma upd_noop T t b i : filter (where_id_tag i t) T = [] -> map (upd_row i t b) T = T.
+Proof.
+  induction T as [|r T IH]; simpl; intros H; [reflexivity|].
+  unfold upd_row at 1. destruct (where_id_tag i t r) eqn:E; [discriminate|]. rewrite (IH H). reflexivity.
+Qed.
+
+Theorem sq_update_missing T t b i : (forall b0, ~ In (i, t, b0) T) -> sq_step T (Update t b i) = (RErr EValue, T).
+Proof.
+  intros H. apply no_row_filter in H. cbn [sq_step]. rewrite H, (upd_noop _ _ _ _ H). reflexivity.
+Qed.
+
+Theorem sq_update_live T t b i b0 : wf_sq T -> In (i, t, b0) T -> fst (sq_step T (Update t b i)) = RCount 1.
+Proof.
+  intros WF Hin. cbn [sq_step fst]. pose proof (count_le1 T i t WF) as Hc.
+  assert (Hf : In (i, t, b0) (filter (where_id_tag i t) T)).
+  { apply filter_In. split; [exact Hin|]. apply where_id_tag_true. split; reflexivity. }
+  destruct (filter (where_id_tag i t) T) as [|r [|r2 rest]]; simpl in *; [tauto | reflexivity | lia].
+Qed.
+
+Lemma filter_idem {X} (p : X -> bool) l : filter p (filter p l) = filter p l.
+Proof.
+  induction l as [|x l IH]; simpl; [reflexivity|]. destruct (p x) eqn:E; simpl; [rewrite E, IH; reflexivity | exact IH].
+Qed.
+
+Lemma filter_neg_nil {X} (p : X -> bool) l : filter p (filter (fun x => negb (p x)) l) = [].
+Proof.
+  induction l as [|x l IH]; simpl; [reflexivity|]. destruct (p x) eqn:E; simpl; [exact IH | rewrite E; exact IH].
+Qed.
+
+Theorem sq_delete_idem T t i :
+  sq_step (snd (sq_step T (Delete t i))) (Delete t i) = (RNone, snd (sq_step T (Delete t i))) /\
+  fst (sq_step (snd (sq_step T (Delete t i))) (Read t i)) = RNone.
+Proof.
+  cbn [sq_step fst snd]. split.
+  - rewrite filter_idem. reflexivity.
+  - rewrite (filter_neg_nil (where_id_tag i t)). reflexivity.
+Qed.
+
+Theorem sq_read_all_exact T t : wf_sq T ->
+  exists d, fst (sq_step T (ReadAll (Some t))) = RDict d /\ is_dict d /\ forall i b, In (i, b) d <-> In (i, t, b) T.
+Proof.
+  intros WF. exists (map id_blob (filter (where_tag t) T)).
+  assert (ND : NoDup (map row_id (filter (where_tag t) T))) by (apply NoDup_map_filter; exact WF).
+  cbn [sq_step fst]. rewrite fold_set_fresh by exact ND. repeat split.
+  - unfold is_dict. rewrite map_map. exact ND.
+  - intros H. apply in_map_iff in H as [[[i0 t0] b0] [E H]]. apply filter_In in H as [H Ht].
+    unfold id_blob, row_id, row_blob in E. simpl in E. inversion E; subst.
+    unfold where_tag, row_tag in Ht. simpl in Ht. apply seqb_eq in Ht. subst. exact H.
+  - intros H. apply in_map_iff. exists (i, t, b). split; [reflexivity|]. apply filter_In. split; [exact H|].
+    unfold where_tag, row_tag. simpl. apply seqb_eq. reflexivity.
+Qed.
+
+Theorem sq_read_all_tags_exact T : wf_sq T ->
+  exists g, fst (sq_step T (ReadAll None)) = RDictAll g /\ is_dict g /\ (forall t d, In (t, d) g -> is_dict d) /\
+            forall t i b, dd_get g t i = Some b <-> In (i, t, b) T.
+Proof.
+  intros WF. exists (fold_left grp_add T []).
+  assert (W : wf_dd (fold_left grp_add T [])) by (apply wf_dd_fold; split; constructor).
+  split; [reflexivity|]. split; [exact (proj1 W)|]. split; [apply wf_dd_forall; exact W|].
+  intros t i b. rewrite fold_grp_get; [|reflexivity|exact WF]. cbn [dd_get dict_get]. apply live_iff. exact WF.
+Qed.
+
+Lemma sq_filter_other_tag T o t' (p : srow -> bool) :
+  (forall r, p r = true -> row_tag r = t') -> op_tag o <> Some t' ->
+  filter p (snd (sq_step T o)) = filter p T.
+Proof.
+  intros Hp Hne. destruct o as [t b|t b i|t i|t i|ot|]; cbn [sq_step snd op_tag] in *; try reflexivity.
+  - rewrite filter_app. simpl. destruct (p (sq_next T, t, b)) eqn:E; [|apply app_nil_r].
+    apply Hp in E. unfold row_tag in E. simpl in E. subst. exfalso. apply Hne. reflexivity.
+  - induction T as [|r T IH]; simpl; [reflexivity|].
+    assert (Hu : upd_row i t b r = if where_id_tag i t r then (row_id r, row_tag r, b) else r) by reflexivity.
+    rewrite Hu. clear Hu.
+    destruct (where_id_tag i t r) eqn:Ew.
+    + apply where_id_tag_true in Ew as [E1 E2].
+      destruct (p (row_id r, row_tag r, b)) eqn:Ep1.
+      { apply Hp in Ep1. unfold row_tag at 1 in Ep1. simpl in Ep1. exfalso. apply Hne. congruence. }
+      destruct (p r) eqn:Ep2.
+      { apply Hp in Ep2. exfalso. apply Hne. congruence. }
+      exact IH.
+    + destruct (p r); [f_equal|]; exact IH.
+  - induction T as [|r T IH]; simpl; [reflexivity|].
+    destruct (where_id_tag i t r) eqn:Ew; simpl.
+    + apply where_id_tag_true in Ew as [E1 E2]. destruct (p r) eqn:Ep; [|exact IH].
+      apply Hp in Ep. exfalso. apply Hne. congruence.
+    + destruct (p r); [f_equal|]; exact IH.
+  - destruct ot; reflexivity.
+Qed.
+
+Theorem sq_tag_isolation T o t' : op_tag o <> Some t' ->
+  fst (sq_step (snd (sq_step T o)) (ReadAll (Some t'))) = fst (sq_step T (ReadAll (Some t'))) /\
+  forall i, fst (sq_step (snd (sq_step T o)) (Read t' i)) = fst (sq_step T (Read t' i)).
+Proof.
+  intros Hne. split; [|intros i]; cbn [sq_step fst]; rewrite (sq_filter_other_tag T o t'); try reflexivity; try exact Hne.
+  - intros r H. apply seqb_eq. exact H.
+  - intros r H. apply where_id_tag_true in H. tauto.
+Qed.
+
+Theorem sq_reopen_id T : sq_step T Reopen = (RUnit, T).
+Proof. reflexivity. Qed.
+
+(* ------------------------------------------------------------------ corollaries: MockStorage model *)
+Lemma md_inner_default t t' g : md_inner t' (md_default t g) = md_inner t' g.
+Proof.
+  unfold md_inner. rewrite md_default_set. destruct (dict_get str_eqb t g) eqn:E; [reflexivity|].
+  rewrite (dict_get_set str_eqb seqb_eq). destruct (str_eqb t t') eqn:Et; [|reflexivity].
+  apply seqb_eq in Et. subst. rewrite E. reflexivity.
+Qed.
+
+Lemma md_inner_put t t' d g : t <> t' -> md_inner t' (dict_set str_eqb t d g) = md_inner t' g.
+Proof.
+  intros Hne. unfold md_inner. rewrite (dict_get_set str_eqb seqb_eq).
+  destruct (str_eqb t t') eqn:Et; [apply seqb_eq in Et; contradiction | reflexivity].
+Qed.
+
+Theorem m_tag_isolation m o t' : op_tag o <> Some t' ->
+  fst (m_step (snd (m_step m o)) (ReadAll (Some t'))) = fst (m_step m (ReadAll (Some t'))).
+Proof.
+  intros Hne.
+  assert (X : forall t, Some t <> Some t' -> t <> t') by (intros t H E; apply H; congruence).
+  destruct o as [t b|t b i|t i|t i|[t|]|]; cbn [m_step op_tag] in *.
+  - cbn [fst snd m_dict]. rewrite !md_inner_default, md_inner_put, md_inner_default by (apply X, Hne). reflexivity.
+  - destruct (dict_get N.eqb i (md_inner t (md_default t (m_dict m)))); cbn [fst snd m_dict];
+      rewrite !md_inner_default; [rewrite md_inner_put, md_inner_default by (apply X, Hne)|]; reflexivity.
+  - cbn [fst snd m_dict]. rewrite !md_inner_default, md_inner_put, md_inner_default by (apply X, Hne). reflexivity.
+  - cbn [fst snd m_dict]. rewrite !md_inner_default. reflexivity.
+  - cbn [fst snd m_dict]. rewrite !md_inner_default. reflexivity.
+  - reflexivity.
+  - reflexivity.
+Qed.
+
+(* ------------------------------------------------------------------ concurrency: any interleaving of atomic calls *)
+Lemma sp_ok_apply_ack s0 s o r s1 : sp_ok s o r s1 -> sp_equiv s0 s -> sp_equiv (apply_ack s0 (o, r)) s1.
+Proof.
+  intros H E. inversion H; subst; simpl; try exact E.
+  - apply sp_set_equiv. exact E.
+  - apply sp_set_equiv. exact E.
+  - apply sp_del_equiv. exact E.
+Qed.
+
+Lemma sp_trace_apply_ack tr : forall s0 s s', sp_trace s tr s' -> sp_equiv s0 s ->
+  sp_equiv (fold_left apply_ack tr s0) s'.
+Proof.
+  induction tr as [|[o r] tr IH]; intros s0 s s' H E; inversion H as [|? ? ? ? ? ? Hok Htr]; subst; simpl.
+  - exact E.
+  - eapply IH; [exact Htr|]. eapply sp_ok_apply_ack; eassumption.
+Qed.
+
+Lemma sq_ids_step T o : is_delete o = false ->
+  map row_id (snd (sq_step T o)) =
+  map row_id T ++ match o with Create _ _ => [sq_next T] | _ => [] end.
+Proof.
+  destruct o as [t b|t b i|t i|t i|[t|]|]; cbn [sq_step snd is_delete]; intros H; try discriminate;
+    try (rewrite app_nil_r; reflexivity).
+  - rewrite map_app. reflexivity.
+  - rewrite upd_ids, app_nil_r. reflexivity.
+Qed.
+
+Lemma sq_created_distinct ops : forall T, wf_sq T ->
+  Forall (fun o => is_delete o = false) ops ->
+  let rs := fst (run_ops sq_step T ops) in
+  let T' := snd (run_ops sq_step T ops) in
+  NoDup (created_ids ops rs) /\
+  (forall i, In i (created_ids ops rs) -> ~ In i (map row_id T) /\ In i (map row_id T')) /\
+  (forall i, In i (map row_id T) -> In i (map row_id T')).
+Proof.
+  induction ops as [|o ops IH]; intros T WF HF; cbn zeta.
+  - simpl. repeat split; [constructor | tauto | tauto | tauto].
+  - inversion HF as [|? ? Ho Hr]; subst.
+    rewrite run_ops_fst_cons, run_ops_snd_cons.
+    pose proof (proj1 (sq_step_refines T o WF)) as WF1.
+    destruct (IH (snd (sq_step T o)) WF1 Hr) as [ND [Hc Hm]]. cbn zeta in *.
+    pose proof (sq_ids_step T o Ho) as Hids.
+    assert (Hmono : forall i, In i (map row_id T) -> In i (map row_id (snd (sq_step T o)))).
+    { intros i Hi. rewrite Hids. apply in_or_app. left. exact Hi. }
+    destruct o as [t b|t b i0|t i0|t i0|[t|]|]; try discriminate; cbn [created_ids sq_step fst];
+      try (split; [exact ND | split; [intros i Hi; destruct (Hc i Hi) as [H1 H2]; split; [intros H; apply H1, Hmono, H | exact H2]
+                                     | intros i Hi; apply Hm, Hmono, Hi]]).
+    + (* create *)
+      assert (Hnew : In (sq_next T) (map row_id (snd (sq_step T (Create t b))))).
+      { rewrite Hids. apply in_or_app. right. left. reflexivity. }
+      split; [|split].
+      * constructor; [|exact ND]. intros Hin. destruct (Hc _ Hin) as [H1 _]. apply H1. exact Hnew.
+      * intros i [<-|Hi].
+        -- split; [apply sq_next_fresh | apply Hm, Hnew].
+        -- destruct (Hc i Hi) as [H1 H2]. split; [intros H; apply H1, Hmono, H | exact H2].
+      * intros i Hi. apply Hm, Hmono, Hi.
+Qed.
+
+Lemma interleaving_perm {X} (ps : list (list X)) l : interleaving ps l -> Permutation (concat ps) l.
+Proof.
+  induction 1 as [ps HF|ps1 a p ps2 l _ IH].
+  - induction HF as [|p ps Hp _ IH]; simpl; [constructor | subst p; exact IH].
+  - rewrite concat_app in *. simpl in *.
+    apply Permutation_sym. apply Permutation_cons_app. apply Permutation_sym. exact IH.
+Qed.
+
+Theorem sq_serial_no_lost_write (progs : list (list op)) (sched : list op) T :
+  interleaving progs sched -> wf_sq T ->
+  let rs := fst (run_ops sq_step T sched) in
+  let T' := snd (run_ops sq_step T sched) in
+  Permutation (concat progs) sched /\
+  (exists s', sp_trace (abs_sq T) (history view_sq sched rs) s' /\ sp_equiv s' (abs_sq T')) /\
+  wf_sq T' /\
+  sp_equiv (fold_left apply_ack (history view_sq sched rs) (abs_sq T)) (abs_sq T') /\
+  (Forall (fun o => is_delete o = false) sched -> NoDup (created_ids sched rs)).
+Proof.
+  intros HI WF. cbn zeta.
+  destruct (sq_refines sched T WF) as [s' [Htr [He WF']]].
+  split; [apply interleaving_perm; exact HI|].
+  split; [exists s'; split; assumption|].
+  split; [exact WF'|]. split.
+  - eapply sp_equiv_trans; [|exact He]. eapply sp_trace_apply_ack; [exact Htr | apply sp_equiv_refl].
+  - intros HF. apply (sq_created_distinct sched T WF HF).
+Qed.
+
+(* ------------------------------------------------------------------ refutations (witnesses by computation) *)
+Definition t_a : tag := [116%N].
+
+(* with the results taken as they are, SqliteStorage.read's answer is not a value a map gives *)
+Definition sq_refines_full : Prop :=
+  forall ops, exists s', sp_trace [] (history view_raw ops (fst (run_ops sq_step [] ops))) s'.
+
+Lemma sq_refines_full_refuted : ~ sq_refines_full.
+Proof.
+  intros H. destruct (H [Create t_a [1%N]; Read t_a 1%N]) as [s' Htr]. vm_compute in Htr.
+  inversion Htr as [|? ? ? ? ? ? Hok1 Htr1]; subst.
+  inversion Htr1 as [|? ? ? ? ? ? Hok2 Htr2]; subst.
+  inversion Hok2.
+Qed.
+
+(* MockStorage: a second instance over the same dict hands out an id that a live row of the tag is using *)
+Definition m_refines_full : Prop :=
+  forall ops, exists s', sp_trace [] (history unraise ops (fst (run_ops m_step m_init ops))) s'.
+
+Lemma m_refines_full_refuted : ~ m_refines_full.
+Proof.
+  intros H. destruct (H [Create t_a [1%N]; Reopen; Create t_a [2%N]]) as [s' Htr]. vm_compute in Htr.
+  inversion Htr as [|? ? ? ? ? ? Hok1 Htr1]; subst.
+  inversion Htr1 as [|? ? ? ? ? ? Hok2 Htr2]; subst.
+  inversion Htr2 as [|? ? ? ? ? ? Hok3 Htr3]; subst.
+  inversion Hok1; subst. inversion Hok2; subst.
+  inversion Hok3 as [? ? ? Hnone| | | | | | | |]; subst.
+  vm_compute in Hnone. discriminate.
+Qed.
+
+(* MockStorage.read of a missing id raises ValueError where a map gives "nothing" *)
+Definition m_read_total : Prop :=
+  forall ops, Forall (fun o => o <> Reopen) ops ->
+  exists s', sp_trace [] (history view_raw ops (fst (run_ops m_step m_init ops))) s'.
+
+Lemma m_read_total_refuted : ~ m_read_total.
+Proof.
+  intros H. destruct (H [Read t_a 0%N]) as [s' Htr]; [repeat constructor; discriminate|].
+  vm_compute in Htr. inversion Htr as [|? ? ? ? ? ? Hok1 Htr1]; subst. inversion Hok1.
 Qed.
